@@ -216,8 +216,8 @@ func c12Run(c c12Case) (violationKey, what, reached string) {
 	var r sut.Result
 	select {
 	case r = <-done:
-	case <-time.After(60 * time.Second):
-		return "hang", "the command did not return within 60 s", "hang"
+	case <-time.After(30 * time.Second):
+		return "hang", "the command did not return within 30 s", "hang"
 	}
 	if r.Panic != "" {
 		return "panic", "the command panicked: " + oneLine(r.Panic), "panic"
@@ -432,6 +432,12 @@ func specialFormBoundaries() []string {
 }
 
 var c12Hostile = []string{
+	// alias tables whose targets start with other aliases: chains, self references, cycles
+	"meta:\n  imports: {foo: \"bar/x\", bar: \"foo/y\"}\nservices:\n  s: {constructor: foo.New}\n",
+	"meta:\n  imports: {foo: \"bar\", bar: \"foo\"}\nservices:\n  s: {value: \"bar.V\", type: \"*foo/z.T\"}\n",
+	"meta:\n  imports: {a: \"b/1\", b: \"c/2\", c: \"a/3\"}\n  functions: {f: \"a.F\"}\nparameters: {p: \"%f()%\"}\n",
+	"meta:\n  imports: {a: \"a/b\", n: \"n\"}\nservices:\n  s: {constructor: a.New, arguments: [\"!value n.V\"]}\n",
+	"meta:\n  imports: {x: \"y/x\", y: \"z/y\", z: \"w\"}\nservices:\n  s: {constructor: x/sub.New}\ndecorators:\n  - {tag: t, decorator: y.D}\n",
 	"", "%", "%%%", "@", "!value ", "!tagged ", "<<: {a: 1}\n", "a: &x [*x]\n", "services: {\"\": {}}\n", "parameters: {\"\": \"\"}\n",
 	"services:\n  s:\n    calls: [[]]\n", "services:\n  s:\n    calls: [[1, 2, 3, 4]]\n", "services:\n  s:\n    tags: [{priority: 1e99}]\n",
 	"services:\n  s:\n    tags: [{name: t, priority: 99999999999999999999}]\n", "version: 1\n", "version: [1]\n", "version: \"999999999999999999999.0.0\"\n",
